@@ -624,6 +624,33 @@ def native_search(root, rng, n):
             except Exception as ex:
                 info.update(outcome="raise", exception=repr(ex), failed_clauses=["no exception escapes Respondent.parse"])
                 fails.append(info)
+        # the client proper: a real Patron (socket replaced by no-ops, bytes put into connector.rxbs) receives a mutated
+        # response; responses that carry a Location header are left out (following a redirect opens connections: C34)
+        for i in range(n // 3):
+            bad = mutate(rng, rng.choice(VALID_RESPS + [b"HTTP/1.1 302 Found\r\nContent-Length: 0\r\n\r\n",
+                                                       b"HTTP/1.1 301 Moved\r\nServer: x\r\nContent-Length: 2\r\n\r\nhi"]))
+            if b"ocation" in bad.lower():
+                continue
+            ev += 1
+            info = {"inputs": {"mutated response to a Patron": repr(bad)}}
+            try:
+                patron = clienting.Patron(hostname="127.0.0.1", port=8080, path="/demo")
+                patron.connector.serviceReceives = lambda: None
+                patron.connector.serviceTxes = lambda: None
+                patron.request(method="GET", path="/demo")
+                patron.serviceRequests()
+            except Exception as ex:
+                info.update(outcome="raise", exception=repr(ex), failed_clauses=["native harness: a Patron can be set up"])
+                fails.append(info)
+                break
+            try:
+                for piece in _splits(rng, bad):
+                    patron.connector.rxbs.extend(piece)
+                    patron.serviceResponse()
+                patron.serviceResponse()
+            except Exception as ex:
+                info.update(outcome="raise", exception=repr(ex), failed_clauses=["no exception escapes Patron.serviceResponse"])
+                fails.append(info)
     finally:
         sys.stderr = saved
         con.reinit(verbosity=verbosity)
@@ -631,5 +658,5 @@ def native_search(root, rng, n):
 
 
 REG.static_functions["C32"] = ["%s:%s" % v for v in FUNCS.values()]
-REG.native_searches.append(("C32", "mutated requests to a Valet and to a Porter with three connections; mutated responses to a Respondent",
+REG.native_searches.append(("C32", "mutated requests to a Valet and to a Porter with three connections; mutated responses to a Respondent and to a Patron",
                             native_search))
